@@ -88,6 +88,15 @@ func c10classes() []c10class {
 		{"formatter-error", mod(func(c *Cfg) { c.Meta.ContainerType = P("func") }), nil, false},
 		{"missing-param", mod(func(c *Cfg) { c.Services[0].Args = []any{"%nope%", "%nope2%"} }), nil, false},
 		{"missing-service", mod(func(c *Cfg) { c.Services[0].Args = []any{"@nope"} }), nil, false},
+		// the same violation found more than once: as many list entries as the step counts, word for word equal or not
+		{"same-missing-param-three-times", mod(func(c *Cfg) {
+			c.Services[0].Args = []any{"%nope%", "%nope%"}
+			c.Services[0].Fields = []KV{{"F1", "%nope%"}}
+		}), nil, false},
+		{"same-missing-service-twice-and-a-param", mod(func(c *Cfg) {
+			c.Services[0].Args = []any{"@nope", "@nope", "%gone%"}
+			c.Services[0].Calls = []Call{{Method: "Set1", Args: []any{"@nope"}}}
+		}), nil, false},
 		{"cycle", mod(func(c *Cfg) { c.Services[0].Args = []any{"@a"} }), nil, false},
 		{"scope", mod(func(c *Cfg) {
 			c.Services[0].Scope = P("shared")
@@ -133,6 +142,9 @@ var c10pres = []c10pre{
 	{"name-too-long", strings.Repeat("n", 300) + ".go", func() {}},
 	{"symlink-loop", "loop/out.go", func() { os.Symlink("loop", "loop") }},
 	{"dangling-symlink-to-missing-directory", "out.go", func() { os.Symlink("nowhere/else.go", "out.go") }},
+	// paths that can be opened for writing and refuse the data (a full device): the failure arrives with the write or the close
+	{"device-that-refuses-writes", "/dev/full", func() {}},
+	{"symlink-to-a-device-that-refuses-writes", "out.go", func() { os.Symlink("/dev/full", "out.go") }},
 }
 
 type pathState struct {
@@ -152,8 +164,20 @@ func statePath(p string) pathState {
 		ents, _ := os.ReadDir(p)
 		return pathState{Kind: "dir", Mode: fi.Mode(), Size: int64(len(ents))}
 	}
-	b, _ := os.ReadFile(p)
+	b, _ := readRegular(p)
 	return pathState{Kind: "file", Mode: fi.Mode(), Size: fi.Size(), Sha: Sha(string(b)), Mtime: fi.ModTime().UnixNano()}
+}
+
+// readRegular reads a path only when it leads to a regular file (a device like /dev/full answers reads for ever).
+func readRegular(p string) ([]byte, error) {
+	fi, err := os.Stat(p)
+	if err != nil {
+		return nil, err
+	}
+	if !fi.Mode().IsRegular() {
+		return nil, fmt.Errorf("%s is not a regular file (%s)", p, fi.Mode())
+	}
+	return os.ReadFile(p)
 }
 
 var reFailCount = regexp.MustCompile(`\[⨉\] \((\d+) errors?\)`)
@@ -208,7 +232,7 @@ func c10run(c *C, id string, cl c10class, flags []string, pre c10pre, plan map[i
 		return points, 2
 	}
 	if r.Exit == 0 {
-		content, err := os.ReadFile(pre.out)
+		content, err := readRegular(pre.out)
 		if err != nil {
 			c.Violation("exit0-without-output", "exit 0 but the -o path cannot be read ("+id+"): "+err.Error(), fm, extra)
 		} else {
@@ -220,10 +244,13 @@ func c10run(c *C, id string, cl c10class, flags []string, pre c10pre, plan map[i
 			}
 		}
 		mustFail := !cl.valid
+		ignP, ignS := false, false
 		for _, f := range flags {
-			if f == "--ignore-missing-params" && cl.id == "missing-param" || f == "--ignore-missing-services" && cl.id == "missing-service" {
-				mustFail = false
-			}
+			ignP = ignP || f == "--ignore-missing-params"
+			ignS = ignS || f == "--ignore-missing-services"
+		}
+		if ignP && (cl.id == "missing-param" || cl.id == "same-missing-param-three-times") || ignS && cl.id == "missing-service" || ignP && ignS && cl.id == "same-missing-service-twice-and-a-param" {
+			mustFail = false
 		}
 		if reference == "" && mustFail {
 			c.Violation("failure-class-exit0:"+cl.id, "class "+cl.id+" must fail but exited 0 ("+id+")\n"+r.Out, fm, extra)
@@ -255,7 +282,7 @@ func init() {
 	Register(&Check{
 		ID:    "C10",
 		Level: "fault_enumeration",
-		Rule: "37 configuration / environment classes (valid, two files, file names with a comma / spaces / parentheses, YAML syntax error, YAML type errors whose message spans several lines (one file, nested, second file), shape error, grammar error(s), token errors (several; a single unexpected token in a parameter / in an argument), compile errors (must-getter without getter under default_must_getter, malformed @ / !value arguments), formatter error, missing parameter / service, cycle, scope, mixed output errors, version mismatch, file matched twice (the identical pattern repeated, glob repeated, three times, file + glob, ./ prefix, dirty path, glob + dirty path), missing input, only missing input, empty glob, invalid glob, input is a directory) x all 16 flag combinations (quiet, stub, ignore-missing-params, ignore-missing-services) x 9 output pre-states (absent, existing file with old mtime and 0600, directory, missing parent, same path as an input, parent is a regular file, name of 300 bytes, symbolic-link loop, dangling symbolic link) " +
+		Rule: "39 configuration / environment classes (the same missing parameter / service referenced several times by one service, valid, two files, file names with a comma / spaces / parentheses, YAML syntax error, YAML type errors whose message spans several lines (one file, nested, second file), shape error, grammar error(s), token errors (several; a single unexpected token in a parameter / in an argument), compile errors (must-getter without getter under default_must_getter, malformed @ / !value arguments), formatter error, missing parameter / service, cycle, scope, mixed output errors, version mismatch, file matched twice (the identical pattern repeated, glob repeated, three times, file + glob, ./ prefix, dirty path, glob + dirty path), missing input, only missing input, empty glob, invalid glob, input is a directory) x all 16 flag combinations (quiet, stub, ignore-missing-params, ignore-missing-services) x 11 output pre-states (a device that accepts the open and refuses the data, directly and behind a symbolic link, absent, existing file with old mtime and 0600, directory, missing parent, same path as an input, parent is a regular file, name of 300 bytes, symbolic-link loop, dangling symbolic link) " +
 			"x injected file-system answers at every os.ReadFile / os.WriteFile / filepath.Glob call of internal/cmd/runner (EACCES, EIO, ErrBadPattern): all executions with <= 1 injected answer (quick) / <= 2 (thorough); plus the real binary's exit status for one representative of every class. non-trivial = a failure class, a non-absent pre-state or an injected fault; distinct = distinct (class, flags, pre-state, fault plan)",
 		Assumptions: []string{
 			"file-system answers are injected with go build -overlay (os.ReadFile, os.WriteFile, filepath.Glob in internal/cmd/runner rewritten to a shim); a write that fails after truncation is outside the statement's fault list and not injected",
@@ -380,7 +407,7 @@ func init() {
 							// some classes are valid only without / with particular flags: the reference run decides
 							// the expected verdict of the fault-free runs; the class table only says which must fail
 							_, exit := c10run(c, id, cl, flags, pre, nil, reference)
-							wantFail := refExit != 0 || pre.id == "directory" || pre.id == "missing-parent" || pre.id == "parent-is-a-file" || pre.id == "name-too-long" || pre.id == "symlink-loop" || pre.id == "dangling-symlink-to-missing-directory"
+							wantFail := refExit != 0 || pre.id == "directory" || pre.id == "missing-parent" || pre.id == "parent-is-a-file" || pre.id == "name-too-long" || pre.id == "symlink-loop" || pre.id == "dangling-symlink-to-missing-directory" || strings.HasSuffix(pre.id, "device-that-refuses-writes")
 							if wantFail && exit == 0 {
 								c.Violation("unwritable-output-exit0:"+pre.id, "the -o path cannot be written ("+pre.id+") but the command exited 0 ("+id+")", nil, nil)
 							}
